@@ -383,7 +383,13 @@ class Canon:
                     out.append((ts, "ev %s %s %s" % (pid_label, "fsyncdir" if kind == "d" else "fsync", p)))
                 continue
             flush_append()
-            flush_rm()
+            if rm and name in ("openat", "open"):
+                # sys::rmdir lists the directory again (for sub-directories) between the unlinks and the rmdir
+                r0 = self.rel(str_arg(args[1] if name == "openat" else args[0]))
+                if not (r0 and r0[0] == "dir" and self.dname(r0[1]) == rm[0]):
+                    flush_rm()
+            else:
+                flush_rm()
             if name in ("openat", "open", "creat"):
                 pa = args[1] if name == "openat" else args[0]
                 fl = "O_WRONLY|O_CREAT|O_TRUNC" if name == "creat" else (args[2] if name == "openat" else (args[1] if len(args) > 1 else ""))
